@@ -15,6 +15,35 @@ P = "src/strengths/"
 
 # (property, name, file, old, new, rule expected to fire)
 MUTANTS = [
+    # ---- C06
+    ("C06", "table-factor-wrong", P + "units.py", "\"dmm\" : 1e-4,", "\"dmm\" : 1e-5,", "C06.SI-TABLE"),
+    ("C06", "nL-maps-to-cmm", P + "units.py", "        elif volstr == \"nL\" :\n            return \"dmm\"", "        elif volstr == \"nL\" :\n            return \"cmm\"", "C06.DERIVED"),
+    ("C06", "exponent-key-fixed", P + "units.py", "/_units_conversion_dict[k][su_dst[k]])**sdim[k]", "/_units_conversion_dict[k][su_dst[k]])**sdim[\"time\"]", "C06.KEYS"),
+    ("C06", "convert-without-dimguard", P + "units.py", "        if u.dim != v.units.dim :\n            raise ValueError(\"unit conversion must happen in the same dimension. Trying to convert", "        if False :\n            raise ValueError(\"unit conversion must happen in the same dimension. Trying to convert", "C06.DIMGUARD"),
+    ("C06", "hour-is-360s", P + "units.py", "\"h\"   : 3600,", "\"h\"   : 360,", "C06.SI-TABLE"),
+    # ---- C13
+    ("C13", "state-index-cell-major", P + "rdsystem.py", "        return species_index * self.space.size() + cell_index", "        return cell_index * self.network.nspecies() + species_index", "C13.INDEX"),
+    ("C13", "state-not-converted", P + "rdsystem.py", "        state[i] = (cell_species_density * cell_vol.get_at(i)).convert(units_system).value", "        state[i] = (cell_species_density * cell_vol.get_at(i)).value", "C13.TAG"),
+    ("C13", "fallback-order", P + "value_processing.py", "        if environment in list(value) : \n            return value[environment]\n        elif \"default\" in list(value) :\n            return value[\"default\"]",
+     "        if \"default\" in list(value) :\n            return value[\"default\"]\n        elif environment in list(value) : \n            return value[environment]", "C13.ENV"),
+    ("C13", "env-of-other-cell", P + "rdsystem.py", "            environment = network.environments[cell_env[i]], \n            default = UnitValue(0, \"molecule/µm3\"))", "            environment = network.environments[cell_env[0]], \n            default = UnitValue(0, \"molecule/µm3\"))", "C13.CONCAT"),
+    ("C13", "setter-other-entry", P + "rdsystem.py", "        self._chemostats[state_index] = int(value)", "        self._chemostats[self.space.get_cell_index(position)] = int(value)", "C13.INDEX"),
+    # ---- C17
+    ("C17", "reshape-cell-species", P + "rdoutput.py", "return UnitArray(self.data.value.reshape((self.nsamples(), self.nspecies(), self.ncells()))[:,species_index,cell_index]", "return UnitArray(self.data.value.reshape((self.nsamples(), self.ncells(), self.nspecies()))[:,cell_index,species_index]", "C17.AXES"),
+    ("C17", "tie-to-later", P + "rdoutput.py", "                if dt0 <= dt1 :", "                if dt0 < dt1 :", "C17.TILING"),
+    ("C17", "point-stride-nsamples", P + "rdoutput.py", "sample_index * self.nspecies()*self.ncells() + species_index*self.ncells() + cell_index", "sample_index * self.nspecies()*self.ncells() + species_index*self.nsamples() + cell_index", "C17.AXES"),
+    ("C17", "query-time-not-converted", P + "rdoutput.py", "        t = UnitValue(t, self.t.units, convert=True)", "        t = UnitValue(t, self.t.units, convert=False)", "C17.UNITS"),
+    ("C17", "infeq-boundary", P + "rdoutput.py", "        if t < self.t.get_at(0) :\n            return None", "        if t <= self.t.get_at(0) :\n            return None", "C17.TILING"),
+    # ---- C18
+    ("C18", "label-with-digit", P + "units.py", "\"volume\"  : [\"kL\",", "\"volume\"  : [\"k2L\",", "C18.ALPHABET"),
+    ("C18", "u-replacement-dropped", P + "units.py", "    s = s.replace(\"uL\", \"µL\")\n", "", "C18.MICRO"),
+    ("C18", "printer-joins-with-star", P + "units.py", "                out += \".\"", "                out += \"*\"", "C18.PRINT"),
+    # ---- C19
+    ("C19", "order-reads-products", P + "rdnetwork.py", "        for k in list(self.substrates) :\n            o += self.substrates[k]", "        for k in list(self.products) :\n            o += self.products[k]", "C19.SIDES"),
+    ("C19", "kf-dims-3n-2", P + "rdnetwork.py", "        return UnitsDimensions(space=-3+3*count, time=-1, quantity=1-count)\n\n    def kr_units_dimensions", "        return UnitsDimensions(space=-2+3*count, time=-1, quantity=1-count)\n\n    def kr_units_dimensions", "C19.DIMS"),
+    ("C19", "overwrite-repeated-label", P + "rdnetwork.py", "                        d[label] += coef", "                        d[label] = coef", "C19.ACCUM"),
+    ("C19", "split-reverse-keeps-kf", P + "rdnetwork.py", "            kf = self.kr,", "            kf = self.kf,", "C19.SPLIT"),
+    ("C19", "sto-matrix-transposed", P + "librdengine.py", "            sto[s*n_reactions+r] = reactions[r].dsto(species_labels)[s]", "            sto[r*n_species+s] = reactions[r].dsto(species_labels)[s]", "C19.MATRIX"),
     # ---- C20
     ("C20", "reader-skips-key-check", P + "rdnetwork.py", "    d = valproc.process_input_dict_keys(d, [\n                [\"species\"],", "    valproc.process_input_dict_keys({}, [\n                [\"species\"],", "C20.KEYS"),
     ("C20", "setter-wrong-dimension", P + "rdgraphspace.py", "        self._surface = UnitValue(v, Units(sys=self.units_system, dim=surface_units_dimensions()), convert=False)", "        self._surface = UnitValue(v, Units(sys=self.units_system, dim=space_units_dimensions()), convert=False)", "C20.DIMS"),
@@ -133,9 +162,16 @@ def _apply(root, rel, old, new):
     s = b.decode("utf-8")
     if crlf:
         s = s.replace("\r\n", "\n")
-    if s.count(old) < 1:
-        return False
-    s = s.replace(old, new, 1)
+    if s.count(old) >= 1:
+        s = s.replace(old, new, 1)
+    else:
+        # whitespace-insensitive anchor: the same token sequence with any spacing
+        import re
+        pat = r"\s*".join(re.escape(t) for t in re.findall(r"\w+|[^\w\s]", old))
+        m = re.search(pat, s)
+        if not m:
+            return False
+        s = s[:m.start()] + new.strip("\n").lstrip(" ") + s[m.end():]
     if crlf:
         s = s.replace("\n", "\r\n")
     open(p, "wb").write(s.encode("utf-8"))
